@@ -37,9 +37,14 @@ func (o *OracleC01) check(n *Node, idx uint32, h Hash, how string) {
 					d1 = true
 				}
 			}
+			// (... or on a certificate that itself has the D1 signature: an equivocating primary
+			// can catch nodes on both sides with early commits - soak seed 721; every acceptance of
+			// the two blocks must be one or the other, a short certificate of any other kind keeps
+			// the fork a plain violation)
+			sound = true
 			for _, a := range o.s.accepts[idx] {
-				if (a.hash == h || a.hash == prev) && a.cert.ok() {
-					sound = true
+				if (a.hash == h || a.hash == prev) && !a.cert.ok() && !a.cert.knownD1() {
+					sound = false
 				}
 			}
 			if d1 && sound {
